@@ -214,6 +214,13 @@ func (b *builtEnv) open(msg []byte, cert *smx509.Certificate, key crypto.Private
 	if err != nil {
 		return nil, nil, err
 	}
+	pt, err = b.openParsed(p, cert, key, onlyOne)
+	return
+}
+
+// openParsed decrypts (and for SignedAndEnvelopedData verifies) on an already parsed object.
+func (b *builtEnv) openParsed(p *pkcs7.PKCS7, cert *smx509.Certificate, key crypto.PrivateKey, onlyOne bool) (pt []byte, err error) {
+	s := b.spec
 	switch {
 	case s.isSignEnv():
 		vf := func() error {
